@@ -148,6 +148,9 @@ pub fn loss_rule(w: &World, prev: &Matched, new: &Matched, recs: &[Rec8], snap: 
     ))
 }
 
+/// history entry meaning "drop the appender and build a new one on the same directory"
+pub const RESTART: u32 = u32::MAX;
+
 #[derive(Clone, Debug)]
 pub struct Scenario {
     pub world: World,
@@ -253,6 +256,10 @@ impl Live {
 fn prefix(sc: &Scenario) -> Result<Live, (String, String)> {
     let mut live = Live::new(&sc.world).map_err(|e| ("build-failed".to_string(), e))?;
     for i in 0..sc.target {
+        if sc.history[i] == RESTART {
+            live.restart(&sc.world).map_err(|e| ("restart-failed".to_string(), e))?;
+            continue;
+        }
         match live.append(&sc.world, sc.history[i], sc.arm_before.contains(&i)) {
             Ok(true) => {}
             Ok(false) => return Err(("fault-free-append-failed".into(), format!("history op {} returned Err without any fault", i))),
@@ -531,7 +538,26 @@ pub fn scenarios(tier: Tier) -> Vec<Scenario> {
             }
         }
     }
-    // a 1500-byte record in flight (two write calls) with an on-start-up trigger over a pre-existing file
+    // the real on-start-up trigger (pre-processing): the first record after a restart rotates what the previous lifetime left
+    for append in [true, false] {
+        for (count, ext) in [(1u32, ""), (2, ""), (2, ".gz")] {
+            let w = World { append, trig: Trig::OnStartup(1), roller: RollerK::Fixed { base: 0, count, ext }, pre: None, sizes: vec![], multibyte: false, restart: true };
+            v.push(Scenario { world: w.clone(), history: vec![10, 10, RESTART, 10, 10, RESTART, 10, 10], target: 3, arm_before: vec![] });
+            if append {
+                v.push(Scenario { world: w, history: vec![10, 10, RESTART, 10, 10, RESTART, 10, 10], target: 6, arm_before: vec![] });
+            }
+        }
+    }
+    if tier == Tier::Thorough {
+        for append in [true, false] {
+            let w = World { append, trig: Trig::Size(25), roller: RollerK::Fixed { base: 1, count: 2, ext: ".zst" }, pre: None, sizes: vec![], multibyte: false, restart: false };
+            let history = vec![10u32; 12];
+            for t in (2..history.len()).step_by(3) {
+                v.push(Scenario { world: w.clone(), history: history.clone(), target: t, arm_before: vec![] });
+            }
+        }
+    }
+    // a 1500-byte record in flight (two write calls)
     for append in [true, false] {
         let w = World { append, trig: Trig::Size(1600), roller: RollerK::Fixed { base: 0, count: 2, ext: "" }, pre: None, sizes: vec![], multibyte: false, restart: false };
         v.push(Scenario { world: w, history: vec![1500, 1500, 1500, 1500], target: 3, arm_before: vec![] });
